@@ -21,6 +21,13 @@ class UserExc(Exception):
         self.tag = tag
 
 
+from pyiron_workflow.mixin.run import ReadinessError as _ReadinessError  # noqa: E402
+
+
+class UserReadiness(UserExc, _ReadinessError):
+    """a ReadinessError raised by a node FUNCTION (e.g. from a helper node it runs): still a failure of that node"""
+
+
 def lin(tag, k, args):
     CALLS.append((tag, list(args)))
     if tag in FAIL:
@@ -150,6 +157,8 @@ def exc_kind(e: BaseException):
 def chk(tag, k, args):
     """lin, but raising UserExc when an argument is negative: failure is decided by the arguments alone"""
     CALLS.append((tag, list(args)))
+    if any(a == -7 for a in args):
+        raise UserReadiness(tag)     # the user's function raises the library's own ReadinessError type
     if any(a < 0 for a in args):
         raise UserExc(tag)
     return (k + sum((i + 1) * a for i, a in enumerate(args))) % M
